@@ -185,6 +185,15 @@ def check_cfg(F, R, cfg):
         else:
             R.note("C07.sem.clamped %s inconclusive (%s): C07.clamped_paths decides" % (inst, msg[:120]))
     R.floor("C07.sem.clamped", I("clamped multiplications decided on symbolic inputs"), ncl, 5)
+    if "x25519_dalek" in F.crates:
+        nx = 0
+        for inst, f_, status, msg in SR.x25519_rules(F):
+            if status in ("ok", "viol"):
+                nx += 1
+                (R.ok if status == "ok" else R.viol)("C07.sem.x25519", I(inst), msg, *(() if status == "ok" else (F.loc(f_) if f_ else "",)))
+            else:
+                R.note("C07.sem.x25519 %s inconclusive (%s): the structural x25519 rules decide" % (inst, msg[:120]))
+        R.floor("C07.sem.x25519", I("X25519 API functions decided on symbolic inputs"), nx, 3)
     for f, bi, t in sites:
         fv = view(F, f)
         nm = f["path"].split("curve25519_dalek::")[-1].split("ed25519_dalek::")[-1]
